@@ -2001,7 +2001,7 @@ fn run_history(c: &mut Case, idx: u64, plan: &[PlanOp], exact: bool, miri: bool,
 
 // ------------------------------------------------------------------ scripted probes ----
 
-const NPROBE: u64 = 15;
+const NPROBE: u64 = 17;
 
 fn probe_plan(k: u64) -> (&'static str, Vec<PlanOp>) {
     let z = [0u32; 4];
@@ -2089,6 +2089,29 @@ fn probe_plan(k: u64) -> (&'static str, Vec<PlanOp>) {
                 }
             }
             ("masked-search-shapes", v)
+        }
+        15 | 16 => {
+            // a file handle stays open while the file behind its name is replaced (15) / removed and added again under a new
+            // name that is then renamed onto the old one (16); handles opened afterwards deliver what the archive holds now,
+            // the older handle keeps what it was opened with (after C19-r6m1)
+            let add = |namesel: u32, src: u32| op(F::AddFileEx, HSel::Live(0), [namesel, src, 1, 0x0001_0600]);
+            let mut v = vec![mk_mut, add(0, 2), op(F::OpenFileEx, HSel::Live(0), [0, 1, 0, 0]), op(F::ReadFile, HSel::Live(0), [3, 1, 0, 0])];
+            if k == 15 {
+                v.push(add(5, 4));
+            } else {
+                v.push(add(1, 5));
+                v.push(op(F::RemoveFile, HSel::Live(0), [0, 0, 1, 0x0001_0000]));
+                v.push(op(F::RenameFile, HSel::Live(0), [0, 0, 3 + 4 * 997, 0x0001_0000]));
+            }
+            for _ in 0..2 {
+                v.push(op(F::OpenFileEx, HSel::Live(0), [0, 1, 0, 0]));
+                v.push(op(F::GetFileSize, HSel::Live(1), z));
+                v.push(op(F::ReadFile, HSel::Live(1), [5, 1, 0, 0]));
+                v.push(op(F::ReadFile, HSel::Live(0), [5, 1, 0, 0]));
+                v.push(op(F::GetFileInfo, HSel::Live(1), [1, 0, 1, 0]));
+                v.push(op(F::FlushArchive, HSel::Live(0), z));
+            }
+            (if k == 15 { "reopen-after-replace-with-older-handle-open" } else { "reopen-after-remove-add-rename-with-older-handle-open" }, v)
         }
         _ => ("special", vec![]),
     }
